@@ -13,7 +13,7 @@ from .model import AnchorError, Program
 from .report import Check, finish
 
 
-def run_property(prop: str, tier: str, replay: str | None = None) -> int:
+def run_property(prop: str, tier: str, replay: str | None = None, write: bool = True) -> int:
     seed = int(os.environ.get("VERIF_SEED", "0") or 0)
     chk = Check(prop, tier)
     digest = "?"
@@ -26,6 +26,18 @@ def run_property(prop: str, tier: str, replay: str | None = None) -> int:
         mod.run(prog, chk)
         if tier == "thorough" and hasattr(mod, "run_thorough"):
             mod.run_thorough(prog, chk)
+        if tier == "thorough" and not os.environ.get("VERIF_SELFTEST"):
+            from .selftest import run_selftest
+
+            st = run_selftest(prop)
+            chk.analysed["selftest"] = {k: v for k, v in st.items() if k != "results"}
+            chk.analysed["selftest_results"] = st["results"]
+            print(
+                f"[{prop}] self-test: {st['edits']} edits, {st['detected']} breaking edits detected, "
+                f"{st['silent']} behaviour-preserving edits silent, {st['skipped']} skipped"
+            )
+            for f in st["failed"]:
+                chk.error(f"checker self-test failed: edit `{f['name']}` ({f['kind']}): {f['detail']}")
     except AnchorError as e:
         chk.error(f"anchor not found: {e}")
     except Exception:
@@ -40,7 +52,7 @@ def run_property(prop: str, tier: str, replay: str | None = None) -> int:
             print(f"replay: {o.site} {o.rule} {o.key}: {'discharged' if o.ok else 'FAILS: ' + o.reason}")
             if o.witness:
                 print("  witness:", json.dumps(o.witness, default=str, indent=1))
-    return finish(chk, digest, stats, seed)
+    return finish(chk, digest, stats, seed, write=write)
 
 
 def main() -> int:
@@ -48,9 +60,10 @@ def main() -> int:
     ap.add_argument("prop")
     ap.add_argument("--tier", default=os.environ.get("VERIF_TIER", "quick"), choices=["quick", "thorough"])
     ap.add_argument("--replay")
+    ap.add_argument("--no-evidence", action="store_true", help="do not write evidence / replay files (used by the self-test)")
     a = ap.parse_args()
     try:
-        return run_property(a.prop.upper(), a.tier, a.replay)
+        return run_property(a.prop.upper(), a.tier, a.replay, write=not a.no_evidence)
     except SystemExit:
         raise
     except BaseException:
